@@ -296,10 +296,10 @@ def _dispatch(chk, repo, mod, W):
             if ln == 0:
                 F2 = Facts(lens={"self": 0}, truths={"'zero' in kwargs": True})
                 w2 = walk(docstring_free(fn.body), F2, "ParallelFilter.__call__")
-                zeros_ = {last, last_of(w2)}
+                l2 = last_of(w2)
                 ok = w.end == "return" and "callables" not in allt and "thub(" not in allt and (
-                    zeros_ == {"return Stream((0.0 for _ in args[0]))", "return Stream((kwargs['zero'] for _ in args[0]))"}
-                    or zeros_ == {"return Stream((kwargs.get('zero', 0.0) for _ in args[0]))"})
+                    (last == "return Stream((0.0 for _ in args[0]))" and l2 == "return Stream((kwargs['zero'] for _ in args[0]))")
+                    or last == l2 == "return Stream((kwargs.get('zero', 0.0) for _ in args[0]))")
                 exp = "the empty sum: one zero per input sample"
             else:
                 ok = w.end == "return" and "callables" in allt and "thub(args[0], len(self))" in allt \
@@ -307,6 +307,12 @@ def _dispatch(chk, repo, mod, W):
                 exp = "the sum of every branch applied to a hub of the input"
             chk.decide(ok, "C05.dispatch", W("ParallelFilter.__call__"), "%d branch(es) -> %s" % (ln, last[:70]),
                        why="documented: " + exp, node=fn)
+        cp_ = repo.find(LF, "LinearFilter.copy")
+        rc_ = [n for n in own_nodes(cp_) if isinstance(n, ast.Return)]
+        chk.decide(len(rc_) == 1 and unparse(rc_[0].value) in ("type(self)(self.numpoly.copy(), self.denpoly.copy())",
+                                                                "self.__class__(self.numpoly.copy(), self.denpoly.copy())"),
+                   "C05.dispatch", W("LinearFilter.copy"), short(rc_[0]) if rc_ else "no return",
+                   why="a copy is the same transfer function: numerator and denominator copies, in that order", node=cp_)
         fn = repo.find(LF, "FilterList.callables")
         r = docstring_free(fn.body)[-1]
         comps = [n for n in ast.walk(r) if isinstance(n, (ast.ListComp, ast.GeneratorExp))]
